@@ -8,7 +8,9 @@
 (* leaf; step = skipped half-bytes + 1 (absent = 1); three arrays indexed  *)
 (* by node id: children (16-bit label bitmap), steps, leaves.              *)
 (*                                                                         *)
-(*   old node: [inner, leaf, bm (set of half-byte labels), step, key]      *)
+(*   old node: [inner, leaf, bm (set of half-byte labels), step, key,      *)
+(*              first (0-based id of the first child), lstep (0.5.0 only:  *)
+(*              half-bytes of the key left at a leaf, + 1)]                 *)
 (*                                                                         *)
 (* CONVERSION: a second BFS that renumbers the nodes, gives every          *)
 (* inner-and-leaf node an explicit leaf child under the empty label, and   *)
@@ -30,7 +32,8 @@ OldBFS(ks, queue, i, nodes) ==
     LET o == queue[i] IN
     IF o.e - o.s = 1
     THEN OldBFS(ks, queue, i + 1,
-                Append(nodes, [inner |-> FALSE, leaf |-> TRUE, bm |-> {}, step |-> 1, key |-> o.s]))
+                Append(nodes, [inner |-> FALSE, leaf |-> TRUE, bm |-> {}, step |-> 1, key |-> o.s,
+                               first |-> 0, lstep |-> NibLen(ks[o.s]) - o.from + 1]))
     ELSE
       LET ws      == Min({FDN(ks[x], ks[x+1]) : x \in o.s..(o.e - 2)})
           endsHere == NibLen(ks[o.s]) = ws
@@ -42,7 +45,8 @@ OldBFS(ks, queue, i, nodes) ==
                         [s |-> Min(idx), e |-> Min(idx) + Cardinality(idx), from |-> ws + 1]]
       IN OldBFS(ks, queue \o ch, i + 1,
                 Append(nodes, [inner |-> TRUE, leaf |-> endsHere, bm |-> labs,
-                               step |-> ws - o.from + 1, key |-> o.s]))
+                               step |-> ws - o.from + 1, key |-> o.s,
+                               first |-> Len(queue), lstep |-> 1]))
 
 OldTrie(ks) ==
   IF Len(ks) = 0 THEN <<>> ELSE OldBFS(ks, <<[s |-> 1, e |-> Len(ks) + 1, from |-> 0]>>, 1, <<>>)
